@@ -7,16 +7,30 @@ from the current tree) against lean/Driver/Rand48.lean on the same line protocol
 boundary states, >= 10^6 (quick) / 10^7 (thorough) states derived from the seed,
 mixed call sequences; the real code is compared with glibc's rand48 family on
 the same inputs inside the harness.
+Sphere samplers: ONE loop iteration of solidSphereRand / hollowSphereRand and the body of
+gaussSphereRand are regenerated from ImathRandom.h on every run (T-route, harness/sym/ops_c18.h:
+the real templates instantiated with a scripted generator); Props/C18Samplers.lean proves that
+the hand loop models iterate those generated steps.  gaussRand (float-typed, not extractable)
+and the same templates at float/double are run with a scripted generator on lattices of
+candidates against an exact integer specification and against the hand model evaluated in Lean.
+nextf(a,b): bit-equality with a*(1-f)+b*f computed from a COPY of the generator (all 2^23 values
+of f for special float pairs).
 Residue (measured, not proved): floating-point rounding of nextf(a,b) and
 finiteness / ball / sphere membership of the samplers in float and double."""
 import os, re, struct
-import lib
+import lib, troute
 
 REQUIRED = ["next_is_lcg", "nrand48_spec", "sub_one_exact_dbl", "erand48_spec", "srand48_spec", "static_forms",
             "run_refines", "run_counts", "rand48_class", "rand32_next", "rand32_nexti", "rand32_nextb",
-            "sub_one_exact_flt", "rand32_nextf", "rand32_low32_only", "rand32_deterministic", "rand48_deterministic",
-            "nextf_range_convex", "solidSphereRand_exit", "hollowSphereRand_exit", "gaussRandLoop_exit",
-            "gaussSphereRand_length2", "gaussRand_real"]
+            "sub_one_exact_flt", "rand32_nextf", "rand32_low32_only", "run32_low32_only", "rand32_seq_function_of_seed",
+            "step_streams_independent", "user_stream_independent_of_static", "static_stream_independent_of_user",
+            "rand48_seq_function_of_seed", "r48Init_limb_duplicated",
+            "nextf_range_convex", "length2_nonneg", "solidSphereRand_exit", "hollowSphereRand_exit", "gaussRandLoop_exit",
+            "gaussSphereRand_length2", "gaussRand_real", "gaussRand_real_bound"]
+PROPS_S = "ImathVerif.Props.C18Samplers"
+REQUIRED_S = ["loopGen_exit"] + [t % n for n in (2, 3, 4) for t in (
+    "solidSphere%d_iter_eq", "solidSphereRand_is_gen%d", "solidSphere%d_loop_exit", "hollowSphere%d_iter_eq",
+    "hollowSphereRand_is_gen%d", "hollowSphere%d_loop_exit", "gaussSphere%d_body_eq", "gaussSphere%d_body_norm")]
 
 DRV = os.path.join(lib.LEAN, ".lake", "build", "bin", "drv_rand48")
 M48 = (1 << 48) - 1
@@ -82,9 +96,30 @@ SEEDS = [0, 1, 2, 0x7fffffff, 0x80000000, 0xffffffff, 0x100000000, 0xffff, 0x100
          (-1) & M64, (-65536) & M64, (-0x80000000) & M64]
 
 
+def carry_states():
+    """states on which `a*x + c` carries out of a partial product when the 64-bit multiply is written with 32x32 (or 16x16)
+    partial products: the low word xl with (0xdeece66d * xl) mod 2^32 >= 2^32 - 0xb (adding c = 0xb carries into bit 32;
+    a is odd, so there are exactly 11 such words, computed analytically), their two non-carrying neighbours (products
+    2^32-12, 2^32-13) and xl = 0, each under several high limbs; the same for the low 16-bit limb (0xe66d * x0 mod 2^16)."""
+    st = []
+    a_lo, a0 = A & 0xffffffff, A & 0xffff
+    inv32, inv16 = pow(a_lo, -1, 1 << 32), pow(a0, -1, 1 << 16)
+    for k in range(0, 14):
+        xl = ((1 << 32) - k) * inv32 & 0xffffffff
+        assert (a_lo * xl) & 0xffffffff == ((1 << 32) - k) & 0xffffffff
+        st += [xl | (xh << 32) for xh in (0, 1, 0x8000, 0xffff, 0x1234)]
+        x0 = ((1 << 16) - k) * inv16 & 0xffff
+        st += [x0 | (hi << 16) for hi in (0, 1, 0xffffffff, 0x80000000, 0x0000ffff, 0xffff0000, 0x12345678, 0x7fff8000, 0xfffe0001)]
+    return st
+
+
+CARRY_LOW_WORDS = 11
+
+
 def boundary_states():
     st = [a | (b << 16) | (c << 32) for a in LIMBS for b in LIMBS for c in LIMBS]
     st += [((x - C) * AINV) & M48 for x in SUCC]      # states whose SUCCESSOR is a boundary value
+    st += carry_states()
     return st
 
 
@@ -140,11 +175,13 @@ def split_out(out):
 
 def glibc_obligation(chk, name, out, stats):
     g, mism = parse_glibc(out)
-    ok = g is not None and g[1] == 0 and g[2] == 0 and g[3] == 0 and g[5] < 16
-    chk.oblige("glibc:" + name, "reference-comparison", ok, None if ok else (mism[:3] or "no summary line"))
+    # g[4] = results BELOW glibc's: erand48_spec proves 16 X' <= m, i.e. Imath >= POSIX always
+    ok = g is not None and g[1] == 0 and g[2] == 0 and g[3] == 0 and g[4] == 0 and g[5] < 16
+    chk.oblige("glibc:" + name, "reference-comparison", ok, None if ok else (mism[:3] or ("summary %r" % (g,))))
     if g:
         stats["glibc_calls"] = stats.get("glibc_calls", 0) + g[0]
         stats["glibc_max_diff_units_2^-52"] = max(stats.get("glibc_max_diff_units_2^-52", 0), g[5])
+        stats["glibc_results_below_posix"] = stats.get("glibc_results_below_posix", 0) + g[4]
     if not ok:
         first = mism[0] if mism else "no-summary"
         d = dict(kv.split("=", 1) for kv in first.split() if "=" in kv)
@@ -271,11 +308,13 @@ def run_residue(chk, binary, draws, nseeds):
         elif t[0] == "sampler":
             bad = sum(int(kv[k]) for k in ("solid_nonfinite", "solid_outside", "hollow_nonfinite", "hollow_off",
                                            "gauss_nonfinite", "gsphere_nonfinite"))
+            if float(kv["gauss_max_abs"]) > 15.0:      # Props/C18.lean gaussRand_real_bound: |deviate| <= 15 for every float length2 > 0
+                bad += 1
             res["samplers " + t[1]] = {"draws_each": int(kv["n"]), "violations": bad,
                                        "solid_max_length2": float(kv["solid_max_length2"]),
                                        "hollow_max_|length-1|_in_eps": float(kv["hollow_max_dev_eps"]),
                                        "gauss_max_abs": float(kv["gauss_max_abs"]), "gaussSphere_max_length": float(kv["gsphere_max_len"])}
-            chk.oblige("residue:samplers:%s finite, in ball, on sphere to 4 eps" % t[1], "residue-measurement", bad == 0)
+            chk.oblige("residue:samplers:%s finite, in ball, on sphere to 4 eps of the element type, |gaussRand| <= 15" % t[1], "residue-measurement", bad == 0)
             chk.count(4 * int(kv["n"]), 4 * int(kv["n"]))
             if bad:
                 allok = False
@@ -289,6 +328,196 @@ def run_residue(chk, binary, draws, nseeds):
         chk.fail("residue:harness", "C18:residue-harness", "the residue harness failed to run", {"output": out[-1500:]}, False)
     chk.residues.update(res)
     return allok
+
+
+
+def kvs(line):
+    """key=value tokens of a harness line; bracketed values ([...]) may contain spaces"""
+    d = {}
+    for m in re.finditer(r"(\w+)=(\[[^\]]*\]|\S+)", line):
+        v = m.group(2)
+        d[m.group(1)] = v[1:-1] if v.startswith("[") else v
+    return d
+
+
+def run_range_exact(chk, binary, draws, sweep_pairs):
+    """nextf(a,b) of the real classes against the property's formula evaluated on a COPY of the generator"""
+    rc, out = lib.sh([binary, "rangeExact", str(chk.seed), str(draws), str(sweep_pairs)], timeout=1800)
+    per = {"Rand32": [], "Rand48": []}
+    for l in out.split("\n"):
+        t = l.split()
+        if len(t) > 2 and t[0] == "exact" and t[1] in per:
+            per[t[1]].append(kvs(l))
+    res = {}
+    for cls, rows in per.items():
+        n = sum(int(r["n"]) for r in rows)
+        vm = sum(int(r["value_mismatch"]) for r in rows)
+        sm = sum(int(r["state_mismatch"]) for r in rows)
+        nf = sum(int(r["nonfinite"]) for r in rows)
+        mx = max([float(r["max_exc_endpoint_ulp"]) for r in rows] or [99.0])
+        okc = rc == 0 and bool(rows) and vm == 0 and sm == 0
+        chk.oblige("corr:nextf(a,b):%s bit-equal to a*(1-f)+b*f with f = nextf() of a copied generator; both generators end in the same state"
+                   % cls, "correspondence", okc, {"evaluations": n, "classes": len(rows)})
+        chk.count(n, n)
+        if not okc:
+            bad = next((r for r in rows if int(r["value_mismatch"]) or int(r["state_mismatch"])), None)
+            d = kvs(bad["first_bad"]) if bad else {}
+            chk.fail("corr:nextf(a,b):" + cls, "rand48_corr:%s::nextf(a,b):%s" % (cls, "value" if vm else "state" if sm else "harness"),
+                     "%s::nextf(rangeMin, rangeMax) is not rangeMin*(1-f)+rangeMax*f for f = the generator's next nextf()%s" % (
+                         cls, "" if vm else " (or consumes a different number of draws)"),
+                     {"class": cls, "endpoint_class": bad["class"] if bad else None, "first_bad": bad["first_bad"] if bad else out[-600:],
+                      "rangeMin_bits": d.get("a"), "rangeMax_bits": d.get("b"), "f_bits": d.get("f"), "member_result_bits": d.get("member"),
+                      "formula_result_bits": d.get("formula"), "value_mismatches": vm, "state_mismatches": sm,
+                      "replay_cmd": ".build/bin/rand48_corr rangeExact %d %d %d" % (chk.seed, draws, sweep_pairs)}, bad is not None)
+        okr = rc == 0 and bool(rows) and nf == 0 and mx <= 1.0
+        chk.oblige("residue:nextf(a,b):%s finite and within one ulp of [min,max] on adjacent / equal / symmetric / extreme endpoint "
+                   "classes%s" % (cls, " and for ALL 2^23 values of f on %d special pairs" % sweep_pairs if cls == "Rand32" else
+                                  " and at boundary values of f"), "residue-measurement", okr)
+        if not okr:
+            bad = next((r for r in rows if int(r["nonfinite"]) or float(r["max_exc_endpoint_ulp"]) > 1.0), None)
+            d = kvs((bad["first_bad"] if int(bad["nonfinite"]) else bad["worst"])) if bad else {}
+            chk.fail("residue:nextf(a,b):" + cls, "C18:nextf-range:%s:%s:%s" % (cls, d.get("a"), d.get("b")),
+                     "%s::nextf(a,b) left the interval between a and b by more than one rounding%s" % (cls, " (non-finite)" if nf else ""),
+                     {"class": cls, "endpoint_class": bad["class"] if bad else None, "rangeMin_bits": d.get("a"), "rangeMax_bits": d.get("b"),
+                      "f_bits": d.get("f"), "result_bits": d.get("r") or d.get("nonfinite"), "measured": bad,
+                      "replay_cmd": ".build/bin/rand48_corr rangeExact %d %d %d" % (chk.seed, draws, sweep_pairs)}, bad is not None)
+        res[cls] = {r["class"]: {"evaluations": int(r["n"]), "outside_closed_interval": int(r["outside"]),
+                                 "max_excursion_ulp_of_larger_endpoint": float(r["max_exc_endpoint_ulp"]),
+                                 "max_excursion_ulp_of_result": float(r["max_exc_result_ulp"]),
+                                 "max_excursion_over_interval_width": float(r["max_exc_over_width"]), "worst": r["worst"] or None}
+                    for r in rows}
+    chk.residues["nextf(a,b) by endpoint class (bound 1 ulp of the larger endpoint = 'one rounding'; ATTAINED when a = b: "
+                 "a*(1-f)+a*f rounds to a +- 1 ulp; 0 observed outside the interval for adjacent endpoints)"] = res
+
+
+def run_determinism(chk, binary, nseeds):
+    rc, out = lib.sh([binary, "determinism", str(chk.seed), str(nseeds)], timeout=600)
+    seen = 0
+    for l in out.split("\n"):
+        t = l.split()
+        if len(t) < 2 or t[0] != "determinism":
+            continue
+        seen += 1
+        kv = kvs(l)
+        ok = rc == 0 and int(kv["bad"]) == 0 and int(kv["default_ctor_bad"]) == 0
+        chk.oblige("determinism:%s object bytes and 6 outputs after init(seed)/constructor are the same for 6 prior contents of the "
+                   "storage x {init on overwritten object, constructor in filled storage, re-init after use}; default argument = seed 0"
+                   % t[1], "correspondence", ok, {"cases": int(kv["n"])})
+        chk.count(int(kv["n"]), int(kv["n"]))
+        if not ok:
+            d = kvs(kv["first"])
+            chk.fail("determinism:" + t[1], "rand48_corr:%s::init:%s" % (t[1], d.get("how", "default-constructor")),
+                     "the sequence produced by %s after init(seed) / construction depends on what the object's storage held before "
+                     "(or the default-constructed object differs from seed 0): it is not a function of the seed alone" % t[1],
+                     {"class": t[1], "first": kv["first"], "measured": kv,
+                      "replay_cmd": ".build/bin/rand48_corr determinism %d %d" % (chk.seed, nseeds)}, True)
+    if seen != 2:
+        chk.oblige("determinism:harness-ran", "correspondence", False, out[-400:])
+        chk.fail("determinism", "rand48_corr:determinism:harness", "determinism harness failed to run", {"output": out[-1500:]}, False)
+
+
+_script_cache = {}
+
+
+def script_lines(binary):
+    if "out" not in _script_cache:
+        _script_cache["out"] = lib.sh([binary, "script"], timeout=600)
+    return _script_cache["out"]
+
+
+def run_script(chk, binary, stats):
+    """the real sampler templates with a scripted generator as the template argument `Rand`"""
+    rc, out = script_lines(binary)
+    rows = [l for l in out.split("\n") if l.startswith("script ")]
+    order = {}
+    for l in rows:
+        t = l.split()
+        fn, ty, kv = t[1], t[2], kvs(l)
+        n, bad = int(kv["n"]), int(kv["bad"])
+        if fn == "gaussSphereRand":
+            ok = rc == 0 and bad == 0 and n > 0
+            order[ty] = {"hollow_draws_first": int(kv["hollow_draws_first"]), "gauss_draws_first": int(kv["gauss_draws_first"])}
+            chk.oblige("script:gaussSphereRand<%s> = hollowSphereRand(rand) * gaussRand(rand) bitwise (either draw order)" % ty, "correspondence", ok)
+        else:
+            reach = all(int(kv[k]) > 0 for k in ("accepted", "rejected", "zero_candidates", "unit_length_candidates"))
+            ok = rc == 0 and bad == 0 and reach
+            chk.oblige("script:%s<%s> loop decision, draws consumed and returned bits on every lattice candidate (accepted %s, retried %s, "
+                       "zero vector %s, length exactly 1: %s)" % (fn, ty, kv["accepted"], kv["rejected"], kv["zero_candidates"],
+                                                                  kv["unit_length_candidates"]), "correspondence", ok)
+            if fn == "gaussRand":
+                stats["gaussRand_lattice_max_abs"] = max(stats.get("gaussRand_lattice_max_abs", 0.0), float(kv["max_abs"]))
+        chk.count(n, n)
+        if bad:
+            chk.fail("script:%s<%s>" % (fn, ty), "rand48_corr:%s:%s" % (fn, "scripted-candidate"),
+                     "%s<%s> run with a scripted generator disagrees with the exact specification of its loop (accept iff the candidate "
+                     "satisfies the documented condition; result = candidate [/ length])" % (fn, ty),
+                     {"function": fn, "types": ty, "first_failing_candidate": kv["first"], "failures": bad,
+                      "replay_cmd": ".build/bin/rand48_corr script"}, True)
+    if rc != 0 or len(rows) != 20:
+        chk.oblige("script:harness-ran", "correspondence", False, out[-400:])
+        chk.fail("script", "rand48_corr:script:harness", "scripted-generator harness failed to run", {"output": out[-1500:]}, False)
+    stats["gaussSphereRand_operand_draw_order (unspecified in C++: `hollowSphereRand (rand) * gaussRand (rand)`)"] = order
+
+
+GAUSS_LEAN = """import ImathVerif.Spec.Rand48Field
+import Mathlib.Algebra.Order.Field.Rat
+open ImathVerif.Rand48.Field
+def drawOf (c : ℚ × ℚ) : Nat → (ℚ × ℚ) × Nat := fun s => (if s = 0 then c else (1 / 2, 1 / 4), s + 1)
+def iters (kx ky : Int) : Nat :=
+  match gaussRandLoop (drawOf ((kx : ℚ) / 8, (ky : ℚ) / 8)) 3 0 with
+  | some r => r.2
+  | none => 0
+def main : IO Unit := do
+  for i in List.range 19 do
+    for j in List.range 19 do
+      let kx : Int := (i : Int) - 9
+      let ky : Int := (j : Int) - 9
+      IO.println s!"G {kx} {ky} {iters kx ky}"
+#eval main
+"""
+
+
+def run_gauss_lattice(chk, binary):
+    """gaussRand is float-typed (not extractable): its hand loop model Field.gaussRandLoop, evaluated in Lean at Rat, against the
+    real template run with a scripted generator, on every candidate of the lattice (k/8)^2, k in [-9, 9]"""
+    rc1, o1 = lib.sh([binary, "gaussLattice"], timeout=300)
+    rc2, o2 = lib.lean_run_file(GAUSS_LEAN, timeout=900, name="c18gauss")
+    impl = [l for l in o1.split("\n") if l.startswith("G ")]
+    model = [l for l in o2.split("\n") if l.startswith("G ")]
+    ok = rc1 == 0 and impl == model and len(impl) == 361
+    chk.oblige("corr:gaussRand loop: iterations of the real template (scripted generator) = hand model Field.gaussRandLoop at Rat on the "
+               "361 candidates (k/8, j/8)", "correspondence", ok, None if ok else (o2[-300:] if len(model) != 361 else None))
+    chk.count(361, 361)
+    if not ok:
+        bad = next(((a, b) for a, b in zip(impl, model) if a != b), None)
+        chk.fail("corr:gaussRand loop", "rand48_corr:gaussRand:%s" % ("lattice-candidate" if bad else "harness"),
+                 "gaussRand's accept/retry decision differs from the hand model Field.gaussRandLoop (accept iff 0 < x^2+y^2 < 1)",
+                 {"implementation_line (G kx ky iterations, candidate (kx/8, ky/8))": bad[0] if bad else None, "model_line": bad[1] if bad else None,
+                  "lean_output_tail": None if bad else o2[-800:], "replay_cmd": ".build/bin/rand48_corr gaussLattice"}, bad is not None)
+
+
+def make_sampler_search(chk, binary):
+    def search(name):
+        """a theorem about a regenerated sampler step stopped elaborating: look for a lattice candidate on which the REAL template,
+        run with a scripted generator, disagrees with the exact specification of the loop"""
+        if not binary:
+            return None
+        m = re.match(r"(solidSphere|hollowSphere|gaussSphere)(Rand_is_gen)?(\d)", name)
+        if not m:
+            return None
+        fn = m.group(1) + "Rand"
+        rc, out = script_lines(binary)
+        for l in out.split("\n"):
+            t = l.split()
+            if len(t) > 3 and t[0] == "script" and t[1] in (fn, "hollowSphereRand" if fn == "gaussSphereRand" else fn) and t[2].startswith("V" + m.group(3)):
+                kv = kvs(l)
+                if int(kv["bad"]):
+                    return {"key": "theorem:" + name, "real_code_function": t[1], "types": t[2], "first_failing_candidate": kv["first"],
+                            "failures": int(kv["bad"]), "replay_cmd": ".build/bin/rand48_corr script",
+                            "spec": "exact integer arithmetic on the lattice: accept iff length2 <= 1 (solid) / 0 < length <= 1 (hollow); "
+                                    "result bit-equal to candidate resp. candidate / candidate.length ()"}
+        return None
+    return search
 
 
 def make_search(chk):
@@ -336,36 +565,77 @@ def run(chk):
     chk.trusted = ["Lean 4.33 kernel; axioms propext, Classical.choice, Quot.sound at most (Mathlib tactics in Props only)",
                    "hand model Model/Rand48.lean (core Lean), tied by correspondence with harness/corr/rand48_corr.cpp "
                    "which links the current /repo/src/Imath/ImathRandom.cpp and includes ImathRandom.h",
+                   "translator harness/sym (the sampler templates of ImathRandom.h instantiated with the scripted generator of "
+                   "harness/sym/ops_c18.h at T = Sym; Vec::length() is the generated Gen.V?.length), validated each run by TV (bitwise at "
+                   "float and double; gaussSphereRand at float) and, for the entries without opaque calls, by evaluating the emitted Lean text at Rat",
                    "splitmix64 input generator duplicated in driver and harness (a discrepancy would show as a mismatch)",
                    "glibc nrand48/erand48/lrand48/drand48/srand48 as the executable POSIX reference",
-                   "g++ -O1 -ffp-contract=off and the CPU executing the harness (IEEE double/float subtraction)"]
-    chk.assumptions = ["LP64: unsigned long / long are 64 bits, unsigned short 16 bits (static_assert in the harness)",
+                   "g++ -O1 -ffp-contract=off -fno-lifetime-dse and the CPU executing the harness (IEEE double/float arithmetic; the harness's "
+                   "own evaluation of a*(1-f)+b*f through volatile temporaries is the reference for nextf(a,b))"]
+    chk.assumptions = ["LP64: unsigned long / long are 64 bits, unsigned short 16 bits (static_assert in the harness); run32_low32_only proves "
+                       "that Rand32's outputs depend on the low 32 state bits only, nothing is compiled with 32-bit long",
                        "Spec/Rand48Spec.lean states the POSIX recurrence, the 31-bit / [0,1) outputs and the srand48 seeding rule correctly",
                        "dblVal1074 / fltVal149 state the IEEE-754 binary64 / binary32 denotation of finite patterns correctly",
-                       "floating-point rounding in nextf(a,b) and the samplers is measured, not proved (see coverage.residues)"]
-    chk.rule = ("(1) every combination of limbs in {0,1,0x7fff,0x8000,0xfffe,0xffff,0x330e,0xff,0xff00}^3 and the preimages of 25 boundary "
-                "successor values (all-zero, all-ones, 2^47, 2^44, 2^17, limb borders) x each entry point; (2) states = low 48 bits of "
+                       "floating-point rounding in nextf(a,b) and the samplers is measured, not proved (see coverage.residues); the sampler "
+                       "theorems are about exact arithmetic over an ordered field; loop termination is not claimed",
+                       "gaussRand is float-typed for every vector type and is not regenerated: its loop model Field.gaussRandLoop is tied by "
+                       "the scripted-generator lattice (361 candidates) only; in gaussSphereRand it is a parameter `g` of the generated body",
+                       "lean_tv (emitted text at Rat) covers the 3 solidSphere entries only; the 6 entries calling Vec::length() are "
+                       "characterised for ALL inputs by the *_iter_eq / *_body_eq theorems and their trees are validated bitwise by TV"]
+    chk.rule = ("(1) every combination of limbs in {0,1,0x7fff,0x8000,0xfffe,0xffff,0x330e,0xff,0xff00}^3, the preimages of 25 boundary "
+                "successor values (all-zero, all-ones, 2^47, 2^44, 2^17, limb borders) and the analytically computed carry states (the 11 low "
+                "words xl with 0xdeece66d*xl mod 2^32 >= 2^32-11, their non-carrying neighbours, same for the low 16-bit limb) x each entry "
+                "point; (2) states = low 48 bits of "
                 "splitmix64(seed, i), hashed per block of 65,536 with bisection on mismatch; (3) random call sequences of length 1..50 "
                 "over nrand48/erand48/lrand48/drand48/srand48/Rand48::{init,nextb,nexti,nextf} with the static state carried across "
-                "sequences, and Rand32 member sequences, seeds boundary + random; every call is non-trivial (state changes)")
+                "sequences, and Rand32 member sequences, seeds boundary + random; every call is non-trivial (state changes); "
+                "(4) nextf(a,b): 24x24 grid + adjacent floats (a, a+-1ulp, a+2ulp) over 18 magnitudes x both signs, a = b, (-x, x), "
+                "(lowest,max) ... x draws, Rand32 additionally ALL 2^23 f on special pairs, Rand48 at 15 boundary f; (5) determinism: "
+                "6 prior storage contents x 3 ways of (re)initialising x boundary + random seeds; (6) scripted generator: every candidate "
+                "of the lattices (k/8)^2, (k/4)^3, (k/4)^4 incl. the zero vector, length exactly 1 and length2 just above 1")
     stats = {}
     rc, out = lib.lake_build(["drv_rand48"])
     okd = rc == 0
     chk.oblige("build:drv_rand48", "build", okd, None if okd else out[-800:])
-    chk.check_theorems("ImathVerif.Props.C18", required=REQUIRED, search=make_search(chk))
-    if chk.thorough:
-        chk.leanchecker("ImathVerif.Props.C18")
-    ok, binary, o = lib.cxx_build("rand48_corr", ["corr/rand48_corr.cpp", os.path.join(lib.REPO, "src/Imath/ImathRandom.cpp")])
+    ok, binary, o = lib.cxx_build("rand48_corr", ["corr/rand48_corr.cpp", os.path.join(lib.REPO, "src/Imath/ImathRandom.cpp")],
+                                  extra=["-fno-lifetime-dse"])
     chk.oblige("build:rand48_corr", "build", ok, None if ok else o[-800:])
     if not ok:
         chk.fail("build:rand48_corr", "build:rand48_corr", "correspondence harness does not compile against the current tree",
                  {"compiler_output": o[-3000:]}, False)
+        binary = None
+    # T-route: one loop iteration of the sphere samplers, regenerated from the current ImathRandom.h
+    bins = troute.build_extractors(chk, [dict(name="sym_leaf", source="sym/sym_leaf.cpp"), dict(name="sym_c18", source="sym/sym_c18.cpp")])
+    leaf_idx = os.path.join(troute.GEN, "index_leaf.txt")
+    if bins.get("sym_leaf"):
+        troute.regenerate(chk, bins["sym_leaf"], "leaf")
+    if bins.get("sym_c18") and bins.get("sym_leaf"):
+        index, _ = troute.regenerate(chk, bins["sym_c18"], "c18", idx_deps=[leaf_idx])
+        paths = {d["name"]: int(d.get("paths", 0)) for d in index}
+        want = {"C18.solidSphere%d_iter": 2, "C18.hollowSphere%d_iter": 3, "C18.gaussSphere%d_body": 3}
+        okp = all(paths.get(k % n) == v for k, v in want.items() for n in (2, 3, 4))
+        chk.oblige("extract:c18: each sampler step has exactly the expected decision paths (solid: accept/retry; hollow, gaussSphere: "
+                   "retry on length > 1, retry on length == 0, accept)", "translator", okp, None if okp else paths)
+        if not okp:
+            chk.fail("extract:c18:paths", "extract:c18:paths", "a sampler loop body has a different number of decision paths than the documented "
+                     "loop (a test was added or dropped)", {"paths": paths, "expected": {k % 3: v for k, v in want.items()}}, False)
+        troute.tv(chk, bins["sym_c18"], "c18", 2000 if chk.thorough else 400, idx_deps=[leaf_idx])
+        troute.lean_tv(chk, bins["sym_c18"], "c18", index, n=8 if chk.thorough else 4, idx_deps=[leaf_idx])
+        for d in index:
+            chk.sample({"entry": d["name"], "paths": d.get("paths"), "reads": d.get("extra")})
+    chk.check_theorems("ImathVerif.Props.C18", required=REQUIRED, search=make_search(chk))
+    chk.check_theorems(PROPS_S, required=REQUIRED_S, search=make_sampler_search(chk, binary))
+    if chk.thorough:
+        chk.leanchecker("ImathVerif.Props.C18")
+        chk.leanchecker(PROPS_S)
+    if not binary:
         return
     if not okd:
         chk.fail("build:drv_rand48", "build:drv_rand48", "the model driver does not build", {"output": out[-3000:]}, False)
         return
     lines, nb = gen_lines(chk, 20000 if chk.thorough else 2500, 4000 if chk.thorough else 600)
     stats["boundary_state_calls"] = nb
+    stats["carry_boundary_states (32x32 / 16x16 partial products of a*x+c)"] = len(carry_states())
     stats["sequence_lines"] = len(lines)
     run_seq(chk, binary, lines, "boundary+mixed", stats)
     nblocks = 153 if chk.thorough else 16
@@ -374,7 +644,14 @@ def run(chk):
     nbc = 32 if chk.thorough else 4
     run_sweep(chk, binary, "sweepc", "dumpc", chk.seed, nbc, stats)
     stats["sampled_class_seeds"] = nbc * 65536
+    run_determinism(chk, binary, 2000 if chk.thorough else 200)
+    run_range_exact(chk, binary, 2000 if chk.thorough else 150, 11 if chk.thorough else 4)
+    run_script(chk, binary, stats)
+    run_gauss_lattice(chk, binary)
     run_residue(chk, binary, 20000 if chk.thorough else 1500, 2000 if chk.thorough else 300)
+    stats["observation: Rand48::init stores state[2] = state[0] (theorem r48Init_limb_duplicated)"] = (
+        "ImathRandom.h Rand48::init: `_state[2] = (unsigned short int) (seed & 0xFFFF)` is the same expression as `_state[0]`; only 2^32 of "
+        "the 2^48 states are reachable by seeding. C18's wording (sequence = pure function of the seed) does not exclude it.")
     chk.extra["C18"] = stats
     chk.sample({"state": "000000000000", "nrand48": "0x%x" % spec_nrand(0), "erand48_bits": "0x%x" % spec_erand_bits(0),
                 "note": "all-zero state"})
